@@ -81,6 +81,36 @@ func runC07(r *mc.Run) {
 			e.Attributes = strings.Repeat("00", l)
 		})
 	}
+	// identity values of another length that are NUMERICALLY the masked report value: zero octets in front, or the
+	// leading octets (hidden by the mask) left out; the identity's value is a byte string of the field's size
+	add("attributes/value-front-padded-17", nil, func(e *world.EnclaveIdentity) { e.Attributes = "00" + e.Attributes })
+	add("attributes/value-front-padded-18", nil, func(e *world.EnclaveIdentity) { e.Attributes = "0000" + e.Attributes })
+	add("attributes/mask-hides-first-octet,value-15", nil, func(e *world.EnclaveIdentity) {
+		e.AttributesMask = "00" + e.AttributesMask[2:]
+		e.Attributes = e.Attributes[2:]
+	})
+	add("attributes/mask-hides-first-two-octets,value-14", nil, func(e *world.EnclaveIdentity) {
+		e.AttributesMask = "0000" + e.AttributesMask[4:]
+		e.Attributes = e.Attributes[4:]
+	})
+	for _, l := range []int{0, 1, 15, 17, 32} {
+		l := l
+		add(fmt.Sprintf("attributes/mask-all-zero,value-len%d", l), nil, func(e *world.EnclaveIdentity) {
+			e.AttributesMask = strings.Repeat("00", 16)
+			e.Attributes = strings.Repeat("00", l)
+		})
+	}
+	add("miscselect/value-front-padded-5", nil, func(e *world.EnclaveIdentity) { e.Miscselect = "00" + e.Miscselect })
+	add("miscselect/value-back-padded-5", nil, func(e *world.EnclaveIdentity) { e.Miscselect = e.Miscselect + "00" })
+	for _, l := range []int{0, 1, 3, 5, 8} {
+		l := l
+		add(fmt.Sprintf("miscselect/mask-all-zero,value-len%d", l), nil, func(e *world.EnclaveIdentity) {
+			e.MiscselectMask = "00000000"
+			e.Miscselect = strings.Repeat("00", l)
+		})
+	}
+	add("mrsigner/identity-front-padded-33", nil, func(e *world.EnclaveIdentity) { e.Mrsigner = "00" + e.Mrsigner })
+	add("mrsigner/identity-back-padded-33", nil, func(e *world.EnclaveIdentity) { e.Mrsigner = e.Mrsigner + "00" })
 	for by := 0; by < 32; by++ {
 		by := by
 		add(fmt.Sprintf("mrsigner/report^%d", by), func(qe []byte) { qe[128+by] ^= 0x40 }, nil)
